@@ -4,16 +4,23 @@ import Bgpfu.Spec.ReplyGrammar
 child-level semantics of the hello reader (specification side of C12). -/
 namespace Xml
 
-structure CapLeaf where
-  span : String
-  inner : List Ev
+/-- children of `<capabilities>`: capability leaves and comments -/
+inductive CapLeaf where
+  | cap (span : String) (inner : List Ev)
+  | comment
 
 inductive HChild where
   | caps (raw : String) (cs : List CapLeaf)
   | sid (span : String) (inner : List Ev)
   | comment
 
-def CapLeaf.render (c : CapLeaf) : List Ev := leaf "capability" c.span c.inner
+def CapLeaf.render : CapLeaf → List Ev
+  | .cap span inner => leaf "capability" span inner
+  | .comment => [.comment]
+
+def CapLeaf.WF : CapLeaf → Prop
+  | .cap _ inner => Inert "capability" inner
+  | .comment => True
 
 def HChild.render : HChild → List Ev
   | .caps raw cs =>
@@ -23,7 +30,7 @@ def HChild.render : HChild → List Ev
   | .comment => [.comment]
 
 def HChild.WF : HChild → Prop
-  | .caps _ cs => ∀ c ∈ cs, Inert "capability" c.inner
+  | .caps _ cs => ∀ c ∈ cs, c.WF
   | .sid _ inner => Inert "session-id" inner
   | .comment => True
 
@@ -33,30 +40,31 @@ def helloDoc (raw : String) (attrs : List AttrItem) (cs : List HChild) : List Ev
     cs.flatMap HChild.render ++ [.end raw, .eof]
 
 /-- capability list semantics: parse each leaf in order, fail on the first invalid URI -/
-def capsAbs (o : UriOracle) (acc : List Capability) : List CapLeaf → Except Err (List Capability)
+def capsAbs (c : RCfg) (o : UriOracle) (acc : List Capability) : List CapLeaf → Except Err (List Capability)
   | [] => .ok acc
-  | c :: cs => match parseCapability o c.span with
-    | .ok v => capsAbs o (acc ++ [v]) cs
+  | .cap span _ :: cs => match parseCapability o (c.tok span) with
+    | .ok v => capsAbs c o (acc ++ [v]) cs
     | .error e => .error e
+  | .comment :: cs => if c.capsComment then capsAbs c o acc cs else .error .unexpected
 
-def helloAbs (o : UriOracle) (caps : Option (List Capability)) (sid : Option Nat) : List HChild → Except Err Hello
+def helloAbs (c : RCfg) (o : UriOracle) (caps : Option (List Capability)) (sid : Option Nat) : List HChild → Except Err Hello
   | [] => match caps, sid with
     | some c, some n => .ok { caps := c, sid := n }
     | _, _ => .error .missing
   | .caps _ cs :: rest =>
-    if caps.isNone then (match capsAbs o [] cs with
-      | .ok c => helloAbs o (some c) sid rest
+    if caps.isNone then (match capsAbs c o [] cs with
+      | .ok v => helloAbs c o (some v) sid rest
       | .error e => .error e)
     else .error .unexpected
   | .sid s _ :: rest =>
-    if sid.isNone then (match parseSessionId s with
-      | some n => helloAbs o caps (some n) rest
+    if sid.isNone then (match parseSessionId (c.tok s) with
+      | some n => helloAbs c o caps (some n) rest
       | none => .error .parse)
     else .error .unexpected
-  | .comment :: rest => helloAbs o caps sid rest
+  | .comment :: rest => helloAbs c o caps sid rest
 
-def establishAbs (advertise11 : Bool) (o : UriOracle) (cs : List HChild) : Except Err Context :=
-  match helloAbs o none none cs with
+def establishAbs (c : RCfg) (advertise11 : Bool) (o : UriOracle) (cs : List HChild) : Except Err Context :=
+  match helloAbs c o none none cs with
   | .error e => .error e
   | .ok h => match highestCommon (clientAdvertised advertise11) h.caps with
     | none => .error .other
